@@ -358,3 +358,57 @@ def c11_during_bootstrap(ki: int, k: int, op: int) -> str:
     op = api.pick(op, 0, 2)
     with api.no_tracing():
         return _during_bootstrap(_KINDS[ki], k, op)
+
+
+LIST_TYPES = [('CommaList', 'a,b', ['a', 'b'], 'c,d', ['c', 'd']), ('TimeIntervalCommaList', '0,60,3600', ['0', '60', '3600'], '10,20', ['10', '20']),
+              ('RouterList', 'x1,x2', ['x1', 'x2'], 'y1', ['y1']), ('LineList', 'notice stdout', ['notice stdout'], 'info file /i', ['info file /i'])]
+
+
+def _list_type(ti, ev):
+    """an option of every list type name Tor announces: after bootstrap and after a CONF_CHANGED (ev 1: new value, 2: reset) the view is a
+    tracked list with exactly Tor's items, and an in-place edit is noticed"""
+    typ, initial, items0, changed, items1 = LIST_TYPES[ti]
+    p, t = fakes.new_protocol()
+    p.post_bootstrap = None
+    p._set_valid_events('CONF_CHANGED CIRC STREAM')
+    opts = {'TheOption': {'type': typ, 'values': [initial]}, 'Nickname': {'type': 'String', 'values': ['fixed']}}
+    tor = SimTor(p, t, opts, True)
+    tor.defaults = {}
+    try:
+        cfg = TorConfig(p)
+        out = fakes.Outcome(cfg.post_bootstrap)
+        for _ in range(50):
+            if not tor.pump():
+                break
+        if out.ok != 1:
+            return R('bootstrap-failed', '%s: %r', typ, out.exc())
+        want = items0
+        if ev == 1:
+            tor.options['TheOption']['values'] = [changed]
+            tor.say(*tor.conf_changed_lines([('TheOption', [changed])]))
+            want = items1
+        elif ev == 2:
+            tor.options['TheOption']['values'] = None
+            tor.say(*tor.conf_changed_lines([('TheOption', None)]))
+            want = []
+        v = cfg.__getattr__('TheOption')
+        if not isinstance(v, _ListWrapper):
+            return R('list-option-is-not-a-tracked-list', '%s reads as %r (%s)', typ, v, type(v).__name__)
+        if [str(x) for x in v] != want and not (ev == 2 and list(v) == [DEFAULT_VALUE]):
+            return R('list-value-differs', '%s: view %r tor %r', typ, list(v), want)
+        v.append('zz')
+        if not cfg.needs_save():
+            return R('edit-after-change-event-not-tracked', '%s: in-place edit did not mark the option unsaved', typ)
+    except Exception as e:
+        return R('exception', '%s: %s: %s', typ, type(e).__name__, e)
+    reached()
+    return ''
+
+
+@cond(quick=dict(budget=60))
+def c11_list_types(ti: int, ev: int) -> str:
+    """CommaList / TimeIntervalCommaList / RouterList / LineList options: tracked list with Tor's items after bootstrap and after events"""
+    ti = api.pick(ti, 0, len(LIST_TYPES) - 1)
+    ev = api.pick(ev, 0, 2)
+    with api.no_tracing():
+        return _list_type(ti, ev)
